@@ -3,6 +3,7 @@ package main
 import (
 	"fmt"
 	"os"
+	"regexp"
 	goruntime "runtime"
 	"strings"
 	"sync"
@@ -179,26 +180,73 @@ func refString(r reflua.Result) string {
 	return s + " trace=[" + strings.Join(r.Trace, " | ") + "]"
 }
 
-// clauseOf names the violated clause: trace (events before the epilogue),
-// epilogue (the runtime-still-consistent battery), status, results, error.
+// clauseOf names the violated clause:
+//
+//	spurious-handler  golua ran a message handler where the reference ran none
+//	missing-handler   the reference ran a message handler, golua did not
+//	position          the values agree except for the chunk:LINE: prefix of a message
+//	trace             any other difference in the events before the epilogue
+//	epilogue          a difference in the runtime-still-consistent battery
+//	status, results, error   the outcome of the chunk for the embedding caller
 func clauseOf(cmp string, ref reflua.Result, got host.Obs) string {
 	w := cmp
 	if k := strings.IndexAny(w, " ["); k >= 0 {
 		w = w[:k]
 	}
-	if w != "trace" {
+	loose := reflua.Matcher{Chunk: chunkName}
+	switch w {
+	case "error":
+		if got.Status == "err" && loose.Match(ref.Err, got.Err) {
+			return "position"
+		}
+		return w
+	case "results":
+		if loose.Match(strings.Join(ref.Results, ","), strings.Join(got.Results, ",")) {
+			return "position"
+		}
+		return w
+	case "trace":
+	default:
 		return w
 	}
 	var idx int
 	fmt.Sscanf(cmp, "trace[%d]", &idx)
-	isEp := func(tr []string) bool {
-		return idx < len(tr) && strings.HasPrefix(tr[idx], `s:"ep-`)
+	r, g := "", ""
+	if idx < len(ref.Trace) {
+		r = ref.Trace[idx]
 	}
-	if isEp(ref.Trace) && (idx >= len(got.Trace) || isEp(got.Trace)) {
+	if idx < len(got.Trace) {
+		g = got.Trace[idx]
+	}
+	isH := func(e string) bool { return strings.HasPrefix(e, `s:"h`) }
+	isEp := func(e string) bool { return strings.HasPrefix(e, `s:"ep-`) }
+	switch {
+	case isH(g) && !isH(r):
+		return "spurious-handler"
+	case isH(r) && !isH(g):
+		return "missing-handler"
+	case r != "" && g != "" && looseMatch(r, g):
+		return "position"
+	case isEp(r) && (g == "" || isEp(g)):
 		return "epilogue"
 	}
 	return "trace"
 }
+
+// looseMatch: equal except for position prefixes of messages.
+func looseMatch(r, g string) bool {
+	// the position marker of the reference accepts any chunk:LINE: prefix when
+	// no LineFn is given; a VM error accepts any string
+	if (reflua.Matcher{Chunk: chunkName}).Match(r, g) {
+		return true
+	}
+	// a message that should carry a position but has none at all
+	return (reflua.Matcher{Chunk: chunkName}).Match(stripMarks(r), g)
+}
+
+var markRe = regexp.MustCompile(`\\x01@[0-9]+\\x01`)
+
+func stripMarks(r string) string { return markRe.ReplaceAllString(r, "") }
 
 type parsed struct {
 	progs   []*prog.Prog
